@@ -17,7 +17,7 @@ WRAPS = ["malloc", "realloc", "calloc", "free", "mmap", "munmap", "mprotect", "f
          "open64", "unlink", "close", "syscall"]
 
 WORKLOADS = ["W1x64", "W1x86", "W1a64", "W1r", "W2fin", "W2ser", "W3x64", "W3x86", "W3a64", "W3x64log", "W3a64log",
-             "W4", "W4dual", "W4multi", "W4dualfill", "W4nomemfd", "W4far", "W4fardual", "W5", "W5big", "W5s", "W6"]
+             "W4", "W4dual", "W4multi", "W4dualfill", "W4nomemfd", "W4far", "W4fardual", "W5", "W5big", "W5s", "W6", "W7asm", "W7bld", "W7cc"]
 COLD = ["W4", "W4dual", "W4nomemfd"]          # vm class additionally with NOTHING warmed up (one case per process)
 CLASSES = ["arena", "heap", "vm"]
 
@@ -592,6 +592,9 @@ def run(tier, args):
                 if kcg in seen_kcg:
                     continue
                 key = "multi-failure:%s:%s:%s" % kcg
+            elif v["kind"] in ("wrong-code-after-refused-call", "one-shot-state-survives-refused-emit"):
+                # the emitter method in progress (vaddps, mov, ...) says nothing: name the function whose failure path is at fault
+                key = "%s:%s:%s:%s" % (fn, v["kind"], v["class"], group_of(res["workload"]))
             else:
                 key = "%s:%s:%s:%s" % (api_function(R.sym, v["site"]) if any(v["site"]) else "?", v["kind"], v["class"], group_of(res["workload"]))
             seen_kcg.add(kcg)
@@ -607,7 +610,7 @@ def run(tier, args):
             chk.violation(key, what, None if args.replay else {"argv": argv})
 
     # ---- 5. evidence ----------------------------------------------------------------------------------------------
-    tot = {k: 0 for k in ("cases", "fired_cases", "reported", "tolerated", "not_fired", "retry_ok", "requests_failed")}
+    tot = {k: 0 for k in ("cases", "fired_cases", "reported", "tolerated", "not_fired", "retry_ok", "requests_failed", "continue_ok", "emits_refused")}
     per = {}
     failing_sites = {}
     request_sites = set()
@@ -616,7 +619,7 @@ def run(tier, args):
         w, cls, mode = res["workload"], res["class"], res["mode"]
         if not res.get("_count_only"):
             for k in tot:
-                tot[k] += res[k]
+                tot[k] += res.get(k, 0)
             d = per.setdefault(w, {}).setdefault(cls, {})
             d[mode] = d.get(mode, 0) + res["cases"] + res.get("workers_killed", 0)
             for e, n in res.get("errors", {}).items():
@@ -663,6 +666,8 @@ def run(tier, args):
         "cases_pattern_not_reached": tot["not_fired"],
         "cases_different_bytes_same_code_up_to_spill_slot_placement": equivalent_layouts,
         "retries_identical_to_failure_free": tot["retry_ok"],
+        "continue_mode_emit_calls_refused_and_skipped": tot["emits_refused"],
+        "continue_mode_cases_identical_to_reference_without_the_refused_calls": tot["continue_ok"],
         "requests_failed_total": tot["requests_failed"],
         "first_error_codes_reported": errors,
         "cases_killed_by_sanitizer": len(R.crashes),
@@ -682,6 +687,9 @@ def run(tier, args):
         "an unreported failure inside the register allocator that changes bytes is accepted as 'completes correctly' only if objdump / llvm-mc "
         "decode both images to the same instruction stream up to a bijective renaming of sp/fp-relative displacements; ConstPool offsets are "
         "judged semantically (aligned, content present), their exact values only in the retry",
+        "W7 (continue recovery): an emit call that returns kOutOfMemory is skipped and the same emitter is used on; phase-1 output must equal "
+        "a failure-free run on fresh objects that omits exactly those calls; after every refused emit inst_options()==kNone, no extra "
+        "register and no inline comment may remain (Assembler, Builder, Compiler; x86-64)",
         "log text is compared in the retry only: logging is best effort and not part of 'the code'",
         "the retry output is compared with the retry of a failure-free run using the same recover strategy (reset soft / reinit / reset hard); "
         "a reinit of a holder that never completed relocate_to_base() is compared with a first run (reinit keeps the base address: documented)",
